@@ -8,8 +8,14 @@ props=${*:-$(python3 -c "import json;print(json.load(open('$dir/meta.json'))['pr
 wt=$(mktemp -d /tmp/seeded_wt_XXXX)
 git -C /repo worktree add -q --detach "$wt" HEAD
 git -C "$wt" apply "$dir/patch.diff" || { echo "patch does not apply"; git -C /repo worktree remove --force "$wt"; exit 2; }
+priv=$(mktemp -d /tmp/seeded_priv_XXXX)
+cp -a /verif/coq "$priv/coq"; mkdir -p "$priv/build"
+# the private copy holds the COMMITTED development: files being edited in /verif right now are put back to HEAD
+for f in $(git -C /verif diff --name-only HEAD -- coq); do git -C /verif show HEAD:$f > "$priv/$f" 2>/dev/null || rm -f "$priv/$f"; done
+for f in $(git -C /verif ls-files --others --exclude-standard -- coq); do rm -f "$priv/$f"; done
 for p in $props; do
   echo "== seeded $id vs $p"
-  VERIF_REPO=$wt /verif/check $p --tier quick 2>&1 | grep -E "VIOLATION|KNOWN|tier=" | head -8
+  VERIF_COQ=$priv/coq VERIF_BUILD=$priv/build VERIF_REPO=$wt /verif/check $p --tier quick 2>&1 | grep -E "VIOLATION|KNOWN|tier=" | head -8
 done
 git -C /repo worktree remove --force "$wt"
+rm -rf "$priv"
